@@ -237,7 +237,10 @@ class DistributorInterface(ABC):
 
             # Obtain blocks for each gradient after merging.
             blocks_within_grad = multi_dim_split(
-                grad.view(merged_dims), self._param_group[MAX_PRECONDITIONER_DIM]
+                # NOTE: A gradient may have a memory layout that cannot be viewed with the merged dimensions (e.g.,
+                # the gradient of a transposed weight); reshape() returns a view whenever possible and a copy otherwise.
+                grad.reshape(merged_dims),
+                self._param_group[MAX_PRECONDITIONER_DIM],
             )
             # Generate block-to-parameter metadata and extend blocked parameters list.
             local_masked_blocked_grads.extend(
